@@ -77,9 +77,16 @@ Proof.
 Qed.
 Lemma mt_visit_e_throws e x : lv x -> e_throws e = true -> s_mt (sc (visit_e e x)) = true.
 Proof.
-  intros Hl He. destruct e; try discriminate. cbn [visit_e]. rewrite mt_visit_lit.
-  unfold live_now. rewrite end_visit_ident. unfold lv in Hl. rewrite Hl. apply orb_true_r.
+  intros Hl He. destruct e; try discriminate; cbn [visit_e]; rewrite mt_visit_lit;
+    unfold live_now; rewrite end_visit_ident; unfold lv in Hl; rewrite Hl; apply orb_true_r.
 Qed.
+(* optional expressions (init / update of a `for`) *)
+Lemma end_visit_oe o x : s_end (sc (visit_oe o x)) = s_end (sc x).
+Proof. destruct o; cbn [visit_oe]; [apply end_visit_e | reflexivity]. Qed.
+Lemma mt_visit_oe_mono o x : s_mt (sc x) = true -> s_mt (sc (visit_oe o x)) = true.
+Proof. destruct o; cbn [visit_oe]; [apply mt_visit_e_mono | exact (fun H => H)]. Qed.
+Lemma mt_visit_oe_throws o x : lv x -> oe_throws o = true -> s_mt (sc (visit_oe o x)) = true.
+Proof. destruct o; cbn [visit_oe oe_throws]; [apply mt_visit_e_throws | discriminate]. Qed.
 
 Lemma end_visit_cond c x : s_end (sc (visit_cond c x)) = s_end (sc x).
 Proof. destruct c; cbn [visit_cond]; rewrite ?end_visit_lit, ?end_visit_e; reflexivity. Qed.
@@ -339,7 +346,7 @@ Proof.
     + right. destruct (may_false c); [apply IHb; exact H | destruct H].
   - intros p c b IH k [<-|H]; [left; reflexivity | right]. destruct (may_true c); [apply IH; exact H | destruct H].
   - intros p b IH c k [<-|H]; [left; reflexivity | right; apply IH; exact H].
-  - intros p c b IH k [<-|H]; [left; reflexivity | right]. destruct c as [c|]; [destruct (may_true c); [apply IH; exact H | destruct H] | apply IH; exact H].
+  - intros p i c u b IH k [<-|H]; [left; reflexivity | right]. destruct (may_true (for_pre c)); [apply IH; exact H | destruct H].
   - intros p b IH k [<-|H]; [left; reflexivity | right; apply IH; exact H].
   - intros p b IH k [<-|H]; [left; reflexivity | right; apply IH; exact H].
   - intros p g fp pb hb IHh b IHb k [<-|H]; [left; reflexivity | right]. apply in_app_or in H. destruct H as [H|H].
@@ -910,46 +917,69 @@ Proof.
   - cbn [set_end with_sc sc s_fb s_fc s_mt s_end oend_forced is_forced]. rewrite fb_mark, fc_mark, mt_mark. dsplit; try reflexivity. discriminate.
 Qed.
 
-Definition for_pre (c : option cond) : cond := match c with Some c => c | None => CTrue end.
+Lemma mono_visit_oe o x : mono x (visit_oe o x).
+Proof. destruct o; cbn [visit_oe]; [apply mono_visit_e | apply mono_refl]. Qed.
+Lemma may_false_upd_post u : may_false (upd_post u) = false.
+Proof. destruct u; reflexivity. Qed.
+Lemma cond_throws_upd_post u : cond_throws (upd_post u) = oe_throws u.
+Proof. destruct u; reflexivity. Qed.
 
-Lemma for_A p c lo body K : okA body K -> okA (visit_forG fx p c lo body) K.
+(* `for (i; c; u) body`: init and update are visited first, in the enclosing scope *)
+Definition forG (p : N) (i : option expr) (c : option cond) (u : option expr) (lo : N) (body : st -> gres) (x : st) : gres :=
+  visit_forG fx p c lo body (visit_oe u (visit_oe i x)).
+
+Lemma for_A p i c u lo body K : okA body K -> okA (forG p i c u lo body) K.
 Proof.
-  intros H x. unfold visit_forG.
-  set (x' := match c with Some c0 => visit_cond c0 x | None => x end).
+  intros H x. unfold forG, visit_forG.
+  set (x0 := visit_oe u (visit_oe i x)).
+  set (x' := match c with Some c0 => visit_cond c0 x0 | None => x0 end).
   destruct (H (child_enter KLoop x')) as [_ [Hc Hk]].
   destruct (body (child_enter KLoop x')) as [[a r] lg]. cbn [g_st g_lg fst snd] in *.
   dsplit; [|exact Hc | exact Hk].
-  eapply mono_trans; [|apply mono_child_exit]. unfold x'. destruct c; [apply mono_visit_cond | apply mono_refl].
+  eapply mono_trans; [|apply mono_child_exit]. unfold x', x0.
+  eapply mono_trans; [apply mono_visit_oe|]. eapply mono_trans; [apply mono_visit_oe|].
+  destruct c; [apply mono_visit_cond | apply mono_refl].
 Qed.
 
-Lemma for_B p c lo body bc Rb ls :
+Lemma for_B p i c u lo body bc Rb ls :
   okB body bc Rb ->
-  okB (visit_forG fx p c lo body) (sem_loop (for_pre c) CTrue ls bc) (if may_true (for_pre c) then Rb else []).
+  okB (forG p i c u lo body) (cunion (t_if (oe_throws i)) (sem_loop (for_pre c) (upd_post u) ls bc)) (if may_true (for_pre c) then Rb else []).
 Proof.
-  intros H x Hl. unfold visit_forG.
-  set (x' := match c with Some c0 => visit_cond c0 x | None => x end).
-  assert (Hl' : lv x') by (unfold lv, x'; destruct c; [rewrite end_visit_cond|]; exact Hl).
+  intros H x Hl. unfold forG, visit_forG.
+  set (x0 := visit_oe u (visit_oe i x)).
+  assert (Hl0 : lv x0) by (unfold lv, x0; rewrite !end_visit_oe; exact Hl).
+  set (x' := match c with Some c0 => visit_cond c0 x0 | None => x0 end).
+  assert (Hl' : lv x') by (unfold lv, x'; destruct c; [rewrite end_visit_cond|]; exact Hl0).
+  assert (Mx' : s_mt (sc x0) = true -> s_mt (sc x') = true) by (unfold x'; destruct c; [apply mt_visit_cond_mono | exact (fun Hq => Hq)]).
   destruct (H (child_enter KLoop x') (lv_child_enter KLoop _ Hl')) as [[P2 [P3 [P4 P5]]] [Hr Hf]].
   destruct (body (child_enter KLoop x')) as [[a r] lg]. cbn [g_st g_rs g_lg fst snd] in *.
   destruct (for_post_sc r p c lo a) as [Efb [Efc [Emt Eend]]]. cbv zeta in *.
   set (a2 := for_post_r r p c lo a) in *.
-  assert (HF : for_forced c a = true -> cN (sem_loop (for_pre c) CTrue ls bc) = false).
+  assert (EN : cN (cunion (t_if (oe_throws i)) (sem_loop (for_pre c) (upd_post u) ls bc)) = cN (sem_loop (for_pre c) (upd_post u) ls bc)) by reflexivity.
+  assert (HF : for_forced c a = true -> cN (sem_loop (for_pre c) (upd_post u) ls bc) = false).
   { intros Hff. unfold for_forced in Hff. apply andb_true_iff in Hff. destruct Hff as [Hb Hk].
-    rewrite cN_sem_loop. cbn [may_false]. rewrite andb_false_r, orb_false_r.
+    rewrite cN_sem_loop, may_false_upd_post. rewrite andb_false_r, orb_false_r.
     assert (Hb0 : cB0 bc = false).
     { destruct (cB0 bc) eqn:Eb; [|reflexivity]. rewrite (P3 eq_refl) in Hb. discriminate. }
     rewrite Hb0, andb_false_r, orb_false_r. destruct c as [c0|]; [|reflexivity]. cbn [for_pre]. rewrite (proj1 (known_true_sem c0 Hk)). reflexivity. }
   dsplit.
   - split; [|dsplit].
-    + intros Hd. apply HF. apply Eend. unfold dd in Hd. rewrite end_child_exit_loop in Hd.
+    + intros Hd. rewrite EN. apply HF. apply Eend. unfold dd in Hd. rewrite end_child_exit_loop in Hd.
       destruct (s_end (sc a2)) as [[R T I| |]|]; try reflexivity; exfalso; unfold lv in Hl'; rewrite live_not_dead, Hd in Hl'; discriminate.
-    + rewrite cB0_sem_loop. discriminate.
-    + intros Hc. apply has_cont_sem_loop in Hc. rewrite fc_child_exit, Efc, (P4 Hc). apply orb_true_r.
-    + rewrite cT_sem_loop. cbn [cond_throws andb]. rewrite andb_false_r, orb_false_r. intros Hc. rewrite mt_child_exit.
+    + cbn [cunion t_if cset_T cempty cB0 orb]. rewrite cB0_sem_loop. discriminate.
+    + rewrite has_cont_cunion, has_cont_t_if. cbn [orb]. intros Hc. apply has_cont_sem_loop in Hc. rewrite fc_child_exit, Efc, (P4 Hc). apply orb_true_r.
+    + cbn [cunion t_if cset_T cempty cT]. rewrite cT_sem_loop, cond_throws_upd_post. intros Hc. rewrite mt_child_exit.
       apply orb_true_iff in Hc. destruct Hc as [Hc|Hc].
-      * destruct c as [c0|]; [|discriminate]. unfold x'. cbn [for_pre] in Hc. rewrite (mt_visit_cond_throws c0 x Hl Hc). reflexivity.
-      * apply andb_true_iff in Hc. destruct Hc as [_ Hc]. rewrite Emt, (P5 Hc). apply orb_true_r.
-  - destruct (for_forced c a) eqn:Ef; [|discriminate]. intros _. apply HF. reflexivity.
+      * (* the init expression throws *)
+        rewrite Mx'; [reflexivity|]. unfold x0. apply mt_visit_oe_mono. apply mt_visit_oe_throws; [exact Hl | exact Hc].
+      * apply orb_true_iff in Hc. destruct Hc as [Hc|Hc].
+        -- destruct c as [c0|]; [|discriminate]. unfold x'. cbn [for_pre] in Hc. rewrite (mt_visit_cond_throws c0 x0 Hl0 Hc). reflexivity.
+        -- apply andb_true_iff in Hc. destruct Hc as [_ Hc]. apply orb_true_iff in Hc. destruct Hc as [Hc|Hc].
+           ++ rewrite Emt, (P5 Hc). apply orb_true_r.
+           ++ (* the update expression throws *)
+              apply andb_true_iff in Hc. destruct Hc as [_ Hc]. rewrite Mx'; [reflexivity|]. unfold x0.
+              apply mt_visit_oe_throws; [unfold lv; rewrite end_visit_oe; exact Hl | exact Hc].
+  - destruct (for_forced c a) eqn:Ef; [|discriminate]. intros _. rewrite EN. apply HF. reflexivity.
   - destruct (may_true (for_pre c)); [exact Hf | apply flags_ok_nil'].
 Qed.
 
@@ -1556,7 +1586,7 @@ Proof.
   pose proof (mono_cases r y1) as M2. specialize (IH y1).
   destruct (anG_cases fx r y1) as [[y2 rs] lg2]. cbn [c_st fst] in *.
   cbn [tests_throw] in Ht. apply orb_true_iff in Ht. destruct Ht as [Ht|Ht].
-  - destruct t as [[i|i| |]|]; try discriminate. apply M2, M1. cbn [visit_test]. apply mt_visit_e_throws; [exact Hl | reflexivity].
+  - destruct t as [e|]; [|discriminate]. apply M2, M1. cbn [visit_test]. apply mt_visit_e_throws; [exact Hl | exact Ht].
   - apply IH; [|exact Ht]. unfold lv. rewrite E1, end_visit_test. exact Hl.
 Qed.
 
@@ -1849,17 +1879,17 @@ Proof.
       * apply dowhile_A. exact Ab.
       * intros k Hk E. cbn [pos] in E. subst k. apply Hp. exact Hk. }
     { apply hoistS_nil. reflexivity. }
-  - (* SFor *) intros p c b [IHb HIHb]. split.
+  - (* SFor *) intros p i c u b [IHb HIHb]. split.
     { intros Hn. cbn [keys] in Hn. apply NoDup_cons_inv in Hn. destruct Hn as [Hp Hn].
     destruct (IHb Hn) as [Ab Bb].
     split.
-    + eapply okA_ext; [intros x; reflexivity|]. eapply (wrap_A _ (visit_forG fx p c (pos b) (anG fx b)) (keys b)).
+    + eapply okA_ext; [intros x; reflexivity|]. eapply (wrap_A _ (forG p i c u (pos b) (anG fx b)) (keys b)).
       * apply for_A. exact Ab.
       * cbn [keys]. apply incl_tl, incl_refl.
       * left. reflexivity.
     + intros ls. eapply okB_ext; [intros x; reflexivity|].
-      assert (HB := wrap_B (SFor p c b) (visit_forG fx p c (pos b) (anG fx b)) (keys b) _ _ (for_B p c (pos b) (anG fx b) _ _ ls (Bb [])) (for_A p c (pos b) _ _ Ab)).
-      destruct c as [c|]; apply HB; intros k Hk E; cbn [pos] in E; subst k; apply Hp; exact Hk. }
+      apply (wrap_B (SFor p i c u b) (forG p i c u (pos b) (anG fx b)) (keys b) _ _ (for_B p i c u (pos b) (anG fx b) _ _ ls (Bb [])) (for_A p i c u (pos b) _ _ Ab)).
+      intros k Hk E; cbn [pos] in E; subst k; apply Hp; exact Hk. }
     { apply hoistS_nil. reflexivity. }
   - (* SForIn *) intros p b [IHb HIHb]. split.
     { intros Hn. cbn [keys] in Hn. apply NoDup_cons_inv in Hn. destruct Hn as [Hp Hn].
